@@ -172,7 +172,15 @@ func (x *bctx) v1ContractUC() (types.UnlockConditions, *V1ContractInfo) {
 	return uc, info
 }
 
-func (x *bctx) v1Form() *types.Transaction {
+// V1ContractSpec fixes the file and window of a scripted v1 contract.
+type V1ContractSpec struct {
+	Data                   []byte
+	WindowStart, WindowEnd uint64
+}
+
+func (x *bctx) v1Form() *types.Transaction { return x.v1FormSpec(nil) }
+
+func (x *bctx) v1FormSpec(spec *V1ContractSpec) *types.Transaction {
 	c := x.c
 	// payout first, then tax, then split the remainder
 	ins, total, ok := x.fundV1(types.Siacoins(1), 2)
@@ -201,6 +209,12 @@ func (x *bctx) v1Form() *types.Transaction {
 	fc.Filesize, fc.FileMerkleRoot = x.newFile()
 	fc.WindowStart = x.h + uint64(x.rng.IntN(7))
 	fc.WindowEnd = fc.WindowStart + 1 + uint64(x.rng.IntN(5))
+	if spec != nil {
+		r := types.Hash256(refmodel.FileRoot(spec.Data))
+		c.Files[r] = spec.Data
+		fc.Filesize, fc.FileMerkleRoot = uint64(len(spec.Data)), r
+		fc.WindowStart, fc.WindowEnd = spec.WindowStart, spec.WindowEnd
+	}
 	uc, _ := x.v1ContractUC()
 	fc.UnlockHash = uc.UnlockHash()
 	rAddr, hAddr := x.dest().Addr, x.dest().Addr
